@@ -48,7 +48,15 @@ sexp sexp_get_stack_trace (sexp ctx) {
   sexp_gc_preserve2(ctx, res, cell);
   res = SEXP_NULL;
   for (i=fp; i>4; i=sexp_unbox_fixnum(stack[i+3])) {
+    /* In a nested sexp_apply (a procedure called from C) the chain
+       ends in the caller's operands, not in a frame - stop at anything
+       that can't be one. */
+    if (i+3 >= sexp_context_top(ctx) || !sexp_fixnump(stack[i+3])
+        || sexp_unbox_fixnum(stack[i+3]) >= i)
+      break;
     self = stack[i+2];
+    if (self == sexp_global(ctx, SEXP_G_FINAL_RESUMER))
+      break;
     if (self && sexp_procedurep(self)) {
       bc = sexp_procedure_code(self);
       src = sexp_bytecode_source(bc);
